@@ -215,6 +215,26 @@ func (s *EtcdStore) FetchConsumerOffset(ctx context.Context, group, topic string
 	return rec.Offset, rec.Metadata, nil
 }
 
+// LookupConsumerOffset implements ConsumerOffsetLookup.
+func (s *EtcdStore) LookupConsumerOffset(ctx context.Context, group, topic string, partition int32) (int64, string, bool, error) {
+	ctx, cancel := context.WithTimeout(ctx, 3*time.Second)
+	defer cancel()
+	resp, err := s.client.Get(ctx, consumerOffsetKey(group, topic, partition))
+	if err != nil {
+		s.recordEtcdResult(err)
+		return 0, "", false, err
+	}
+	s.recordEtcdResult(nil)
+	if len(resp.Kvs) == 0 {
+		return 0, "", false, nil
+	}
+	var rec consumerOffsetRecord
+	if err := json.Unmarshal(resp.Kvs[0].Value, &rec); err != nil {
+		return 0, "", false, err
+	}
+	return rec.Offset, rec.Metadata, true, nil
+}
+
 // ListConsumerOffsets returns all committed offsets stored in etcd.
 func (s *EtcdStore) ListConsumerOffsets(ctx context.Context) ([]ConsumerOffset, error) {
 	ctx, cancel := context.WithTimeout(ctx, 3*time.Second)
